@@ -288,6 +288,18 @@ bufferevent_get_write_max_(struct bufferevent_private *bev)
 	return bufferevent_get_rlim_max_(bev, 1);
 }
 
+/** Helper: make sure the refill timer of <b>bev</b> is running.  If it is
+    already pending (the other direction ran dry earlier) keep its deadline:
+    re-adding it would push back the refill that direction is waiting for. */
+static int
+bev_schedule_refill_(struct bufferevent_private *bev)
+{
+	struct event *ev = &bev->rate_limiting->refill_bucket_event;
+	if (event_pending(ev, EV_TIMEOUT, NULL))
+		return 0;
+	return event_add(ev, &bev->rate_limiting->cfg->tick_timeout);
+}
+
 int
 bufferevent_decrement_read_buckets_(struct bufferevent_private *bev, ev_ssize_t bytes)
 {
@@ -301,8 +313,7 @@ bufferevent_decrement_read_buckets_(struct bufferevent_private *bev, ev_ssize_t 
 		bev->rate_limiting->limit.read_limit -= bytes;
 		if (bev->rate_limiting->limit.read_limit <= 0) {
 			bufferevent_suspend_read_(&bev->bev, BEV_SUSPEND_BW);
-			if (event_add(&bev->rate_limiting->refill_bucket_event,
-				&bev->rate_limiting->cfg->tick_timeout) < 0)
+			if (bev_schedule_refill_(bev) < 0)
 				r = -1;
 		} else if (bev->read_suspended & BEV_SUSPEND_BW) {
 			if (!(bev->write_suspended & BEV_SUSPEND_BW))
@@ -339,8 +350,7 @@ bufferevent_decrement_write_buckets_(struct bufferevent_private *bev, ev_ssize_t
 		bev->rate_limiting->limit.write_limit -= bytes;
 		if (bev->rate_limiting->limit.write_limit <= 0) {
 			bufferevent_suspend_write_(&bev->bev, BEV_SUSPEND_BW);
-			if (event_add(&bev->rate_limiting->refill_bucket_event,
-				&bev->rate_limiting->cfg->tick_timeout) < 0)
+			if (bev_schedule_refill_(bev) < 0)
 				r = -1;
 		} else if (bev->write_suspended & BEV_SUSPEND_BW) {
 			if (!(bev->read_suspended & BEV_SUSPEND_BW))
@@ -1000,8 +1010,7 @@ bufferevent_decrement_read_limit(struct bufferevent *bev, ev_ssize_t decr)
 	new_limit = (bevp->rate_limiting->limit.read_limit -= decr);
 	if (old_limit > 0 && new_limit <= 0) {
 		bufferevent_suspend_read_(bev, BEV_SUSPEND_BW);
-		if (event_add(&bevp->rate_limiting->refill_bucket_event,
-			&bevp->rate_limiting->cfg->tick_timeout) < 0)
+		if (bev_schedule_refill_(bevp) < 0)
 			r = -1;
 	} else if (old_limit <= 0 && new_limit > 0) {
 		if (!(bevp->write_suspended & BEV_SUSPEND_BW))
@@ -1029,8 +1038,7 @@ bufferevent_decrement_write_limit(struct bufferevent *bev, ev_ssize_t decr)
 	new_limit = (bevp->rate_limiting->limit.write_limit -= decr);
 	if (old_limit > 0 && new_limit <= 0) {
 		bufferevent_suspend_write_(bev, BEV_SUSPEND_BW);
-		if (event_add(&bevp->rate_limiting->refill_bucket_event,
-			&bevp->rate_limiting->cfg->tick_timeout) < 0)
+		if (bev_schedule_refill_(bevp) < 0)
 			r = -1;
 	} else if (old_limit <= 0 && new_limit > 0) {
 		if (!(bevp->read_suspended & BEV_SUSPEND_BW))
